@@ -4,7 +4,7 @@
    validation: the same questions to every materialisation of a generated tree). *)
 From Coq Require Import List String NArith Bool.
 From Coq Require Import Permutation.
-From AM Require Import Rust.Ast Gen.Archive Ref.Tree Proofs.Tree Ref.Archive Proofs.Archive Tie.Archive Gen.Private Tie.Graph Gen.Embed Tie.Embed.
+From AM Require Import Rust.Ast Gen.Archive Ref.Tree Proofs.Tree Ref.Archive Proofs.Archive Tie.Archive Gen.Private Tie.Graph Gen.Embed Tie.Embed Ref.Embed Proofs.Embed.
 Import ListNotations.
 
 Theorem C04_listing_is_exactly_the_direct_children : forall t d l,
@@ -81,7 +81,7 @@ Theorem C04_code_parent_id : parent_id_wf DirEntry_parent_id = true.
 Proof. exact parent_id_as_modelled. Qed.
 
 (* the embed! macro fills the tables of an Embedded source as modelled: one row per file, one listing
-   per directory, ordered for the binary searches *)
+   per directory (sorted for reproducible builds; Embedded::from collects both into hash maps) *)
 Theorem C04_code_embed_macro :
   fn_body Content_push_file = expected_Content_push_file /\
   fn_body Content_push_dir = expected_Content_push_dir /\
@@ -90,3 +90,33 @@ Theorem C04_code_embed_macro :
   fn_body Id_push = expected_Id_push /\
   fn_body embed_extension_of = expected_embed_extension_of.
 Proof. exact embed_macro_as_modelled. Qed.
+
+(* The tables the macro builds from a directory (Ref/Embed.v: depth-first walk, push_dir / push_file)
+   ARE the index an archive listing the same directory depth first would get -- literally the same
+   tables -- for every directory tree, of any depth and width, whose entries are distinct ... *)
+Theorem C04_embedded_tables_are_an_archive_index : forall root,
+  NoDup (members_of_list root []) -> embed_build root = build (members_of_list root []).
+Proof. exact embed_is_an_archive. Qed.
+
+(* ... hence the Embedded source answers like the tree: same directories, same files, and every
+   listing the exact set of direct children, each once *)
+Theorem C04_embedded_answers_like_the_tree : forall bytes root,
+  NoDup (members_of_list root []) ->
+  let ix := embed_build root in let t := tree_of bytes (members_of_list root []) in
+  (forall d, idx_exists ix (DDir d) = is_dir t d) /\
+  (forall i x, idx_exists ix (DFile i x) = spec_exists t (DFile i x)) /\
+  (forall d, match idx_read_dir ix d, spec_read_dir t d with
+             | Some l, Some l' => NoDup l /\ forall e, In e l <-> In e l'
+             | None, None => True
+             | _, _ => False
+             end).
+Proof. exact embedded_answers_like_the_tree. Qed.
+
+Example C04_embedded_nonvacuous :
+  let root := [FDir "d" [FFile "a" "x"; FDir "e" [FFile "b" ""]]; FFile "a" "x"; FFile "a" "y"] in
+  NoDup (members_of_list root []) /\
+  idx_read_dir (embed_build root) ["d"] = Some [DFile ["d"; "a"] "x"; DDir ["d"; "e"]].
+Proof.
+  cbv zeta. split; [|vm_compute; reflexivity].
+  repeat (constructor; [cbn; intuition (try discriminate; try congruence)|]). constructor.
+Qed.
